@@ -177,11 +177,12 @@ theorem none_skipped_none_duplicated {c : Cfg} {s s' : BState} (hr : Reachable c
   · rw [a1]; exact List.nodup_range
 
 /-- **Bridge (gated family `gbatch`).** `Spec.c07` holds of the model's observation in the state right after post,
-    for every schedule (fallbacks that do not cancel the context: `Spec.cancelFree` does not inspect them). -/
+    for every schedule and every script — no side condition: `Spec.cancelFree` itself inspects the exec scripts, the
+    fallback scripts (of nodes with a custom fallback) and the explicit cancellation. -/
 theorem spec_c07_holds {c : Cfg} {s s' : BState} (items : List Val) (hr : Reachable c s)
-    (hfbc : ∀ i, (c.fbOut i).cancels = false) (hw : apply c s .waitRet = some s') :
+    (hw : apply c s .waitRet = some s') :
     Spec.c07 c (viewOf s' items) = true :=
-  Bridge.c07_viewOf items hr hfbc hw
+  Bridge.c07_viewOf items hr hw
 
 /-- **Bridge (sequential families).** `Spec.c07` on `runBatch`'s own observation, as the driver evaluates it, for
     runs without cancellation in either error-handling mode. -/
@@ -210,6 +211,10 @@ example : finalSlot exConc 1 = newErrorResult (.user 11) ∧ finalSlot exConc 2 
 def exConc' : Cfg :=
   { exConc with w := 3, exec := fun i k => if i = 2 then exConc.exec 2 k else { res := .ok (.tok 7) } }
 example : exConc'.exec 2 = exConc.exec 2 ∧ exConc'.fbOut 2 = exConc.fbOut 2 ∧ exConc'.budget = exConc.budget := ⟨rfl, rfl, rfl⟩
-example : ∀ i, (exConc.fbOut i).cancels = false := fun _ => rfl
+-- `Spec.cancelFree` (the guard of `c07`): true of `exConc`; false as soon as a custom fallback's script cancels
+example : Spec.cancelFree exConc { events := [], quiescent := [], items := [], slots := [], posts := 0, outOk := true } = true := by
+  decide
+example : Spec.cancelFree { exConc with fb := .custom, fbOut := fun i => { res := .error 0, cancels := i == 3 } }
+    { events := [], quiescent := [], items := [], slots := [], posts := 0, outOk := true } = false := by decide
 
 end Flyt.Props.C07
